@@ -271,6 +271,18 @@ def execute(case):
             b = w.bptk_of(i.id)
             i.serial = b._sim_serial if b is not None else None
 
+        def served_by_a_restored_copy(i):
+            """an instance whose outcome was open (due, nobody known to have swept) was served: either it was still in memory, or it
+            had been swept meanwhile (a request that was not served itself may have swept - one to a zero-time-out instance does)
+            and came back from the adapter as a new object: then the old one was released"""
+            old = i.serial
+            resolve_serial(i)
+            if i.serial != old:
+                if old is not None:
+                    expect_destroyed[old] = 1
+                i.session = True
+                res.probe("restored_from_adapter")
+
         for n, ev in enumerate(case["events"]):
             if ev["gap_us"]:
                 clk.advance(ev["gap_us"])
@@ -581,6 +593,7 @@ def execute(case):
                         res.violate("C17.B-restore-" + ("keepalive" if kind == "keep_alive" else "request"), dict(detail, unswept=True))
                     if served:
                         i.lo, i.hi = t0, t1
+                        served_by_a_restored_copy(i)
                     else:
                         i.state = "gone"
                         expect_destroyed[i.serial] = 1
@@ -588,6 +601,7 @@ def execute(case):
                     res.probe("ambiguous_band")
                     if served:
                         i.lo, i.hi = t0, t1
+                        served_by_a_restored_copy(i)
                     else:
                         i.state = "gone"
                         expect_destroyed[i.serial] = 1
